@@ -32,7 +32,7 @@ META = {
             "counters, handles, scrape and hook events after each action.",
     "note": "Lines are sent only between loader calls (the interleaving of a line with a reload in progress is C20). "
             "One program, one label key; histograms, limits and text metrics are not in the version family.",
-    "technique": "TLA+ spec + TLC exhaustive/simulated histories replayed into the real runtime, store and exporter (direction A)",
+    "technique": "TLA+ spec + TLC exhaustive/simulated histories replayed into the real runtime, store and exporter (direction A); thorough: hook traces of the repository's runtime/program-load tests validated by spec/TraceRuntime.tla (direction B)",
     "design_ref": "DESIGN.md 5/C14, Appendix A.4",
 }
 FAM = "C14"
@@ -126,6 +126,9 @@ def run(ctx):
     nsim, depth = (3000, 8) if th else (150, 7)
     jobs.insert(1, job("sim", lambda: rtlib.model(ctx, FAM, depth, invs=INVS, emit=True, simulate=nsim, depth=depth * 14 + 5,
                                                   seed=ctx.seed * 13 + 1, label="C14-sim", timeout=900, maxlines=4)))
+    if th:
+        # direction B: the repository's own runtime / program-load tests, recorded with the hooks on
+        jobs.append(lambda: rtlib.direction_b(ctx, "C14"))
     rtlib.parallel(jobs)
     rtlib.check_coverage(out["prop_omit"] if th else out["emit"], FAM)
 
